@@ -369,8 +369,10 @@ def _registry(ck: Check, prog: Program) -> None:
                 key = a.targets[0].slice
                 gs = guard_edges(cfg, n)
                 kinds = [(classify_cond(prog, new, g.src.ast), g.label) for g in gs]
-                ident = any(c.kind == 'is-none' and c.subject == dotted(key) and (l == 'T') == c.negated for c, l in kinds)
-                truthy = any(c.kind == 'truthy' and c.subject == dotted(key) for c, l in kinds)
+                from ..util import canon_dotted
+                key_names = {dotted(key), canon_dotted(new, key)} - {None}
+                ident = any(c.kind == 'is-none' and c.subject in key_names and (l == 'T') == c.negated for c, l in kinds)
+                truthy = any(c.kind == 'truthy' and c.subject in key_names for c, l in kinds)
                 # what the key is: `<cls>.code`, or a local holding it / `getattr(<cls>, 'code', None)`
                 owner = None
                 for kal in fl_new.alts(n, key):
